@@ -133,6 +133,9 @@ def h_step(g, kind, K, a, step):
             elif name == "del":
                 ops.Del | q[active0.index(step[1])]
                 expected = [i for i in active0 if i != step[1]]
+            elif name == "del2":
+                ops.Del | (q[active0.index(step[1])], q[active0.index(step[2])])
+                expected = [i for i in active0 if i not in (step[1], step[2])]
             elif name == "gate1":
                 ops.Rgate(g.real("theta")) | q[active0.index(step[1])]
                 touched = (step[1],)
@@ -204,12 +207,14 @@ def activity_vectors(K):
 def build(ctx):
     kinds = ("gaussian", "bosonic", "fock")
     Ks = (2, 3) if not ctx.thorough else (2, 3, 4)
+    # one four-mode register in the quick tier too: deleting two modes at once needs a survivor above the second one
+    extra4 = [] if ctx.thorough else [(4, (1, 1, 1, 1))]
     fns = ["Program.__init__(prev)", "Program._add_subsystems", "Program._delete_subsystems", "ops._New_modes", "ops._Delete",
            "BaseEngine._run", "LocalEngine._run_program", "GaussianBackend.{add_mode,del_mode,get_modes,state}",
            "BosonicBackend.{add_mode,del_mode,get_modes,state}", "FockBackend.{add_mode,del_mode,get_modes,state,_remap_modes}", "ModeMap.*"]
     for kind in kinds:
-        for K in Ks:
-            for a in activity_vectors(K):
+        for K, a in [(K, a) for K in Ks for a in activity_vectors(K)] + extra4:
+            if True:
                 act = [i for i in range(K) if a[i]]
                 dead = [i for i in range(K) if not a[i]]
                 steps = [("none",), ("new", 1), ("new", 2)]
@@ -220,11 +225,19 @@ def build(ctx):
                 steps += [("del_then_use", act[0]), ("duplicate", act[-1])]
                 if not ctx.thorough and K == 3:
                     steps = [s for s in steps if s[0] in ("none", "new", "del", "gate1", "use_deleted")]
+                if not ctx.thorough and K == 4:
+                    steps = [("none",)]
                 for step in steps:
                     ctx.add("%s.K%d.a%s.%s" % (kind, K, "".join(map(str, a)), "_".join(map(str, step))), h_step,
                             {"kind": kind, "K": K, "a": list(a), "step": list(step)}, modules=mods, functions=fns,
                             bounds={"backend": kind, "register_indices": K, "activity": list(a), "step": list(step)},
                             validate_points=1)
+                if K >= 3 and len(act) >= 3:
+                    for (i, j) in [(act[0], act[2]), (act[2], act[0]), (act[0], act[1])]:
+                        ctx.add("%s.K%d.a%s.del2_%d_%d" % (kind, K, "".join(map(str, a)), i, j), h_step,
+                                {"kind": kind, "K": K, "a": list(a), "step": ["del2", i, j]}, modules=mods, functions=fns,
+                                bounds={"backend": kind, "register_indices": K, "activity": list(a), "step": ["del2", i, j]},
+                                validate_points=1)
                 for mode in dead[:1] + [K]:
                     ctx.add("%s.K%d.a%s.backend_reject_%d" % (kind, K, "".join(map(str, a)), mode), h_backend_reject,
                             {"kind": kind, "K": K, "a": list(a), "mode": mode}, modules=mods, functions=fns,
